@@ -175,3 +175,5 @@ def error_on_exception(emit):
         emit.error(str(e))
     except UnicodeError as e:
         emit.error("input is not valid utf-8: %s" % e)
+    except RecursionError:
+        emit.error("input is nested too deeply (includes or type definitions)")
